@@ -17,6 +17,13 @@ async def settle(n=6):
         await asyncio.sleep(0)
 
 
+class Item(tuple):
+    """what is sent: (sender, index).  Like a protobuf message whose fields all hold their defaults, the first item of every sender is falsy"""
+
+    def __bool__(self):
+        return self[1] != 0
+
+
 async def scenario(env, cfg):
     from betterproto.grpc.util.async_channel import AsyncChannel, ChannelClosed, ChannelDone
 
@@ -34,7 +41,7 @@ async def scenario(env, cfg):
     async def sender(sid, items, mode):
         if mode in ("send_from-close", "send_from-async-close"):
             # the sender itself closes the channel after its batch (close=True); there is no other closer in these configurations
-            batch = [(sid, i) for i in range(items)]
+            batch = [Item((sid, i)) for i in range(items)]
 
             async def source():
                 for x in batch:
@@ -53,7 +60,7 @@ async def scenario(env, cfg):
         if mode == "send_from":
             await gate("s%d" % sid)
             try:
-                await ch.send_from([(sid, i) for i in range(items)])
+                await ch.send_from([Item((sid, i)) for i in range(items)])
                 log["sent"] += [(sid, i) for i in range(items)]
                 if not log["closed"]:
                     log["sent_before_close"] += [(sid, i) for i in range(items)]
@@ -64,7 +71,7 @@ async def scenario(env, cfg):
             await gate("s%d" % sid)
             was_closed = log["closed"]
             try:
-                await ch.send((sid, i))
+                await ch.send(Item((sid, i)))
                 log["sent"].append((sid, i))
                 if not log["closed"]:
                     log["sent_before_close"].append((sid, i))  # the send completed before the channel was closed
